@@ -138,13 +138,22 @@ def wavelength_A(energy_eV):
     return h / math.sqrt(2 * m * e * energy_eV) / math.sqrt(1 + e * energy_eV / (2 * m * c ** 2)) * 1e10
 
 
-def _turn_diff(got_turns, want_fracs):
-    """| got - want | modulo one turn, element-wise; want given as exact Fractions"""
+FIX = 1 << 64
+
+
+def _turn_diff(got_turns, want_fix):
+    """| got - want | modulo one turn, element-wise; want given as floor(phase * 2^64) (exact integers from Coq)"""
     import numpy as np
-    want = np.array([[float(Fraction(w) % 1) for w in row] for row in want_fracs], dtype=np.float64)
+    want = np.array([[float(Fraction(int(w) % FIX, FIX)) for w in row] for row in want_fix], dtype=np.float64)
     if want.shape != got_turns.shape:
         return None
     return np.abs((got_turns - want + 0.5) % 1.0 - 0.5)
+
+
+def _dec(x):
+    """the generator's parameters are short decimals: hand the model that decimal exactly (the float64 the
+    implementation receives differs from it by 1e-16 relative, far below the float32 tolerance)"""
+    return Fraction(repr(float(x)))
 
 
 def _strided(E, a, backend):
@@ -376,7 +385,7 @@ def case_translate(E, p):
     if p.get("coq") or p.get("phase"):
         exprs = []
         for i in range(min(len(pos), 2)):
-            exprs.append("C16K.ramp_phases %d%%nat %d%%nat %s %s" % (n1, n2, cq(Fraction(float(pos[i, 0]))), cq(Fraction(float(pos[i, 1])))))
+            exprs.append("C16K.ramp_phases_fix %d%%nat %d%%nat %s %s" % (n1, n2, cq(_dec(pos[i, 0])), cq(_dec(pos[i, 1]))))
         info["turns"] = {"ramp-phase": [(np.angle(ramp[i]) / (2 * np.pi),
                                          TOL_RAMP_TURNS * (1.0 + float(np.abs(pos[i]).max())),
                                          "fourier_translation_operator(%s, %s)" % (pos[i].tolist(), (n1, n2)))
@@ -488,12 +497,12 @@ def case_propagate(E, p):
         lam_q = Fraction(lam_impl)
         tr = Fraction(math.tan(float(np.float32(p["tilt"][0])) / 1e3))
         tc = Fraction(math.tan(float(np.float32(p["tilt"][1])) / 1e3))
-        d1, d2 = Fraction(float(samp[0])), Fraction(float(samp[1]))
+        d1, d2 = _dec(samp[0]), _dec(samp[1])
         items = []
         for arr, dzs in ((P, thick), (Pn, [-t for t in thick])):
             for t in range(1 if arr is Pn else len(thick)):
-                dz = Fraction(float(dzs[t]))
-                coq.append(("kernel-phase", "C16K.fresnel_phases %d%%nat %d%%nat %s %s %s %s %s %s"
+                dz = _dec(dzs[t])
+                coq.append(("kernel-phase", "C16K.fresnel_phases_fix %d%%nat %d%%nat %s %s %s %s %s %s"
                             % (n1, n2, cq(d1), cq(d2), cq(lam_q), cq(tr), cq(tc), cq(dz)), 0.0, "turns"))
                 items.append((np.angle(arr[t].astype(np.complex128)) / (2 * np.pi), ("rad", TOL_KERNEL_RAD0, TOL_KERNEL_REL),
                               "_compute_propagator_arrays: dz = %g A, %s" % (dzs[t], desc)))
@@ -791,6 +800,14 @@ def case_fproj(E, p):
         if not r <= 1e-11:
             fails.append(("gradient-step-energy", "|gradient_step|^2 per pattern %s != squared amplitude misfit sum (a - |F|)^2 %s: %s"
                           % (got_e.tolist(), want_e.tolist(), desc)))
+    if p.get("zero_coq") and p["psi_kind"] == "zero-pattern" and M > 1:
+        # the excluded point of the mixed-state clause, on the model and on the code: where every mode's spectrum
+        # vanishes (summed estimate exactly zero) the projected exit waves vanish (C16_fourier_projection_mixed_zero_estimate)
+        g = _grid(E, n1, n2)
+        ps = "[%s]" % "; ".join(_sig2(psi[m, B - 1]) for m in range(M))
+        ws = "[%s]" % "; ".join(_l2(P1[m, B - 1]) for m in range(M))
+        coq.append(("fproj-mixed-zero-estimate", "let g := %s in C16F.cmp2s g (C16F.fproj_mixed g (rsig2 %s) %s) %s"
+                    % (g, _r2(a[B - 1]), ps, ws), 1e-11, "cmp"))
     if p.get("coq") and p["psi_kind"] == "random":
         g = _grid(E, n1, n2)
         if M == 1:
@@ -1012,7 +1029,8 @@ def _gen(ctx: Ctx):
                 n += 1
                 out.append({"kind": "fproj", "roi": list(sh), "modes": m, "batch": r.randint(2, 3), "seed": seed(),
                             "zero_frac": r.choice([0.0, 0.1, 0.3]), "amp_kind": ak, "psi_kind": pk,
-                            "coq": pk == "random" and sh[0] * sh[1] <= (80 if m == 1 else 48) and rep < 3})
+                            "coq": pk == "random" and sh[0] * sh[1] <= (80 if m == 1 else 48) and rep < 3,
+                            "zero_coq": pk == "zero-pattern" and m > 1 and sh[0] * sh[1] <= 48 and rep < 3})
     # ---- ProbeParametric / ObjectDIP variants of the operators
     vcombos = [("pure_phase", False), ("potential", False), ("complex", True)]
     r.shuffle(ts)
@@ -1046,7 +1064,7 @@ def _judge(ctx, case, res, vals, report=True):
                             % (label, len(v), got.shape, what)))
                 continue
             if isinstance(tl, tuple):          # ("rad", absolute, relative to the phase magnitude)
-                mag = np.array([[abs(float(w)) for w in row] for row in v]) * 2 * math.pi
+                mag = np.array([[abs(int(w)) / FIX for w in row] for row in v]) * 2 * math.pi
                 lim = (tl[1] + tl[2] * mag) / (2 * math.pi)
             else:
                 lim = tl
@@ -1055,7 +1073,7 @@ def _judge(ctx, case, res, vals, report=True):
                 bad.append(("%s-phase-correspondence" % case["kind"],
                             "the phase of the array the code builds is not the model's exponent: element %s: model %.9f turns "
                             "(mod 1), implementation %.9f turns, |difference| %.3g > %.3g: %s"
-                            % (tuple(int(q) for q in kk), float(Fraction(v[kk[0]][kk[1]]) % 1), float(got[kk] % 1.0), float(d[kk]),
+                            % (tuple(int(q) for q in kk), (int(v[kk[0]][kk[1]]) % FIX) / FIX, float(got[kk] % 1.0), float(d[kk]),
                                float(lim[kk]) if hasattr(lim, "shape") else lim, what)))
             continue
         if kind == "ints":
@@ -1112,13 +1130,25 @@ def run(ctx: Ctx):
         "sampling, tilt / scan positions with wrap-around and repeated indices, object padding / slices 1-4 x modes 1-3 / "
         "amplitude and exit-wave kind incl. zeros) with fresh random complex128 data; distinct = distinct (kind, shape, "
         "discrete parameters); every case evaluates all identities of its family on the real operators (oracle) and, "
-        "for sizes <= 8x10, the binary64 instance of the Coq model on the same inputs (correspondence)")
+        "for sizes <= 8x10, the binary64 instance of the Coq model on the same inputs (correspondence); round 3: input dtype "
+        "(complex128 / complex64 / real float64) and layout (contiguous / strided view), patches forced to wrap around both "
+        "axes, per-slice scatter, ProbeParametric / ObjectDIP variants, and for translate / propagate cases the exact rational "
+        "phases of the model's kernel shapes (C16K.ramp_phases_fix / fresnel_phases_fix) against the angle of the arrays "
+        "the code builds, modulo one turn")
     ctx.assumptions += [
         "numpy.fft / torch.fft compute the DFT; the twiddle table handed to the PrimFloat instance is numpy.exp",
         "theorems are algebra over an abstract commutative ring with exact roots of unity; agreement of the float "
         "implementation with that algebra is validated numerically (stated tolerances), not proved",
-        "the unit-modulus / character hypotheses on phase ramps and Fresnel kernels are checked numerically on "
-        "fourier_translation_operator and _compute_propagator_arrays (exp/sin/cos are not modelled)",
+        "the kernels are modelled as shapes E(phase) over an abstract character E (E(a+b) = E a E b, E 0 = 1, conj(E a) = "
+        "E(-a)); exp itself, tan of the tilt angle and the wavelength as a function of the energy are not modelled: the "
+        "phase argument is tied to fourier_translation_operator / _compute_propagator_arrays by comparing the model's exact "
+        "rational phase with the angle of the implementation's array modulo one turn (tolerance 4e-7 (1+|s|) turns for the "
+        "ramp, 1e-5 + 8 eps32 |phase| rad for the float32 Fresnel kernel); the wavelength is cross-checked against the "
+        "relativistic formula to 1e-6",
+        "integer translation = roll: the meeting of the character with the root family (exp(-2 pi i fftfreq(k) s) = w^(k s) "
+        "for integer s) is a hypothesis of C16_ramp_integer_is_roll, validated numerically",
+        "ObjectDIP / ProbeParametric: oracle only (the operators they call are the modelled ones); real-valued input to "
+        "fourier_shift_expand: oracle only",
         "mixed-state Fourier projection: claimed where the summed estimate is non-zero (>= 1e-2 in the oracle); the code adds "
         "eps = 1e-9 to every Fourier coefficient, so agreement there is to ~1e-9, not to rounding",
     ]
@@ -1228,7 +1258,7 @@ def replay(ctx: Ctx, path):
         vals = _eval_exprs(ctx, "replay", res["coq"])
         for (label, _e, tol, kind), v in zip(res["coq"], vals):
             if kind == "turns":
-                print("  model phases `%s`: %d x %d exact rationals" % (label, len(v), len(v[0]) if v else 0))
+                print("  model phases `%s`: %d x %d values floor(phase * 2^64)" % (label, len(v), len(v[0]) if v else 0))
                 continue
             print("  model vs impl `%s`: %s (tol %.1g)" % (label, _pairs(v) if kind == "cmp" else v, tol))
         for key, what in _judge(ctx, case, res, vals):
